@@ -116,6 +116,27 @@ func (h *vF) flushed(before *vstore.Map) {
 	h.written = &vstore.Map{}
 }
 
+// initUnder makes a lazy store produce its underlying database WITHOUT flushing (InitUnderlyingDb, as the
+// synced pool does at start-up): from then on the view is the produced store overlaid with the unflushed writes.
+func (h *vF) initUnder() {
+	if !h.lazy {
+		return
+	}
+	db, err := h.f.(*LazyFlushable).InitUnderlyingDb()
+	sym.Assert(err == nil && db != nil, "InitUnderlyingDb succeeds")
+	nv := h.under.M.Copy()
+	for _, w := range h.written.Pairs {
+		if i := h.view.Find(w.K); i >= 0 {
+			nv.Set(w.K, h.view.Pairs[i].V)
+		} else {
+			nv.Del(w.K)
+		}
+	}
+	h.view = nv
+	h.lazy = false
+	sym.Reach("lazy-init")
+}
+
 func (h *vF) finalOf(kind int) {
 	switch kind {
 	case 0:
@@ -304,6 +325,22 @@ func VerifH_C22_w3() {
 	h.write(0)
 	h.write(1)
 	h.write(2)
+	h.finalOf(sym.Choice("final", 4))
+}
+
+// VerifH_C22_lazyInit: LazyFlushable whose underlying database is produced by InitUnderlyingDb (not by a
+// flush), before or after an unflushed write: reads / iteration / flush / drop see produced store + overlay.
+func VerifH_C22_lazyInit() {
+	h := newVF(1, 1, true)
+	h.kinds = 2
+	at := sym.Choice("initAt", 2)
+	if at == 0 {
+		h.initUnder()
+	}
+	h.write(0)
+	if at == 1 {
+		h.initUnder()
+	}
 	h.finalOf(sym.Choice("final", 4))
 }
 
